@@ -106,7 +106,86 @@ theorem C08_parse_is_encoder_tree (env : Env) (O : Oracle) (hna : env.noAny = tr
   obtain ⟨t, ht, _, hp⟩ := encodeBytes_parses env O hna hO root v bs h
   exact ⟨t, ht, hp⟩
 
+/-! ## the `Any` / `j5_json` gap (tree level, machine checked)
+
+`encodeAny` copies `j5_json` into the output without looking at it. The witness: a j5 `Any` whose
+`j5_json` is the single byte `}`. The encoder succeeds, the tree it builds holds the chunk
+verbatim (`PTree.raw`), the bytes are `{"a":{"!type":"t","value":}}}` — and the chunk is not a JSON
+value. (That the *whole* byte string is rejected by the strict parser is not evaluated here: kernel
+evaluation of `parse` on 30 bytes does not terminate in reasonable memory; the chunk-level fact
+below is what makes `C08_wellformed_partial` need `Env.noAny`. Such a message is outside C01's
+representable messages, so this is not a violation of C08 as stated.) -/
+
+def anyEnv : Env :=
+  { defs := [("r", .object [{ jsonName := ascii "a", path := [1], pres := .msg, field := .any false }])] }
+
+def anyMsg : PVal := .msg [(1, .anyJ5 (ascii "t") [] [0x7D] .none "" (.msg []))]
+
+def anyTree : PTree :=
+  .obj (.cons (ascii "a") (ascii "\"a\"")
+    (.obj (.cons (ascii "!type") (ascii "\"!type\"") (.str (ascii "t") (ascii "\"t\""))
+      (.cons (ascii "value") (ascii "\"value\"") (.raw [0x7D]) (.nil .closed)))) (.nil .closed))
+
+theorem C08_any_j5json_unchecked :
+    encodeTree anyEnv toyOracle "r" anyMsg = .ok anyTree ∧
+    encodeBytes anyEnv toyOracle "r" anyMsg = .ok (ascii "{\"a\":{\"!type\":\"t\",\"value\":}}}") ∧
+    parse [0x7D] = none ∧ anyEnv.noAny = false := by
+  refine ⟨by rfl, by rfl, by decide, by decide⟩
+
+/-! ## the documented structure -/
+
+/-- **Full statement**: every successful encoding of a representable message has the documented
+structure (`Wire.RootConforms`, which never mentions the encoder) -/
+def C08_conforms_full : Prop :=
+  ∀ (c : Cfg), OracleLaws c.O → OracleWire c.O → ∀ (root : String) (m : Fields) (bs : Bytes),
+    (valOk c.env c.O (.object root) (.msg m) = true ∨ valOk c.env c.O (.oneof root) (.msg m) = true) →
+    encodeBytes c.env c.O root (.msg m) = .ok bs →
+    ∃ t, parse bs = some t ∧ Wire.RootConforms c.env c.O root m t
+
+/-- **C08_conforms (`_partial` only in the class of schemas)**: for every `Env.flat` environment
+(flattened objects, exposed oneofs, anonymous proto oneofs, wrapper oneofs, enums, arrays / maps of
+scalars / enums / objects / oneofs; no `Any`) and every representable message: the bytes
+`Codec.ProtoToJSON` returns are one well-formed JSON document whose tree (as the strict parser
+reads it) is the documented representation of the message:
+* an object has one member per *set* property, in schema order, named by the property's JSON name;
+  unset properties are omitted; the properties of a flattened object are members of the *parent*
+  (looked up by their full proto path);
+* a oneof (wrapper, exposed, or root) is `{}` or `{"!type": name, name: value}` — the type key plus
+  exactly the key it names;
+* scalars have the representation of the README table (`Wire.scalarConforms`: bare 32-bit integers
+  / floats / booleans, quoted 64-bit integers and decimals, padded standard base64, RFC 3339 UTC,
+  zero-padded dates), enums are the short option name.
+`OracleWire` (the shape of `time.Format`) is used for timestamps only.
+
+Missing for `C08_conforms_full`: `Any` (its shape alone is `C08_any_shape`); an exposed oneof
+inlined from a flattened object. -/
+theorem C08_conforms_partial (c : Cfg) (hs : c.env.flat = true) (L : OracleLaws c.O)
+    (W : OracleWire c.O) (root : String) (m : Fields) (bs : Bytes)
+    (hok : valOk c.env c.O (.object root) (.msg m) = true ∨
+      valOk c.env c.O (.oneof root) (.msg m) = true)
+    (henc : encodeBytes c.env c.O root (.msg m) = .ok bs) :
+    ∃ t, parse bs = some t ∧ Wire.RootConforms c.env c.O root m t := by
+  obtain ⟨t, ht, hc⟩ := conforms_tree_flat c hs L W root m hok
+  obtain ⟨t', ht', _, hp⟩ := encodeBytes_parses c.env c.O (flat_noAny c.env hs)
+    (floatTextOk_of_laws c.O L) root (.msg m) bs henc
+  rw [ht] at ht'; cases ht'
+  exact ⟨t, hp, hc⟩
+
+/-- **Any values are `{"!type": typeName, "value": …}`**: whatever `encodeAny` writes successfully
+(any environment, any value) is an object with exactly these two members in this order, the first
+a string holding the type name (for a `google.protobuf.Any` the type URL without its prefix) -/
+theorem C08_any_shape (env : Env) (O : Oracle) (f : Nat) (pb : Bool) (v : PVal) (t : PTree)
+    (h : encValue env O f (.any pb) v = .ok t) :
+    ∃ tn l1 l2 l3 data, Wire.anyTypeName v = some tn ∧
+      t = .obj (.cons (ascii "!type") l1 (.str tn l2) (.cons (ascii "value") l3 data (.nil .closed))) :=
+  any_shape env O f pb v t h
+
 /-! ## Non-vacuity -/
+
+/-- an oracle satisfying both `OracleLaws` and `OracleWire` -/
+example : OracleLaws wireOracle ∧ OracleWire wireOracle := ⟨wireOracle_laws, wireOracle_wire⟩
+example : C01.sampleEnv.flat = true := by decide
+example : valOk C01.sampleEnv wireOracle (.object "t.M") (.msg C01.sampleMsg) = true := by decide
 
 example : scalarOk toyOracle .int64 (.int (-9223372036854775808)) = true := by decide
 example : scalarOk toyOracle .date (.date 33 1 2) = true := by decide
